@@ -175,7 +175,11 @@ def observe(case: dict, pub, inp) -> dict:
             oenc(tov.tag_value if tov else None), oenc(tov.tag_unit if tov else None),
             enc(node.instruction_name), enc(getattr(node, "line", "") or ""), enc(args),
             encb(bool(node.has_argument)), encb(en["num_truthy"]), enc(en["tag_now"])]))
-    obs["ops"] = params + node_ops + ["agree", "oracles", "analyze", "accept"]
+    base_rx = next((c.validator[8:] for c in pub.definition.system_commands if c.name == "Base" and c.validator), None)
+    probes = BASE_PROBES + [n.arguments for n, k in anodes if n.instruction_name == "Base"]
+    obs["probe_ops"] = [f"baseprobe\t{enc(a)}" for a in probes]
+    obs["probe_out"] = ["T" if base_rx is not None and re.search(base_rx, a) is not None else "F" for a in probes]
+    obs["ops"] = params + node_ops + obs["probe_ops"] + ["agree", "oracles", "analyze", "accept"]
     order = [n.position.line for n, _ in anodes if n.position.line in enodes]
     obs["accept"] = " ".join(f"{ln}:{enodes[ln]['static']}" for ln in order) or "none"
     return obs
@@ -185,21 +189,28 @@ def observe(case: dict, pub, inp) -> dict:
 # oracle: analyzer-clean method, run on the engine (independent of the Lean model)
 
 def judge(case: dict, obs: dict) -> list[Failure]:
+    """Any method error of an analyzer-clean method is a failure.  The classification (by failing node, raising function
+    and data, see c20_engine.classify_failure) only chooses the key — nothing is dropped."""
     run = obs["run"]
     f = run["failure"]
     pub_case = {"spec": case["spec"], "pcode": case["pcode"]}
-    if obs["all_errors"] or f is None or f["category"] not in C20_CATEGORIES:
+    if obs["all_errors"] or f is None:
         return []
     detail = f["site"]
     if f["category"] == "invalid-argument" and f["site"] == "uod-command":
-        name = f["text"].split("'")[1] if "'" in f["text"] else "?"
+        name = f.get("command") or "?"
         kind = next((c["kind"] for c in case["spec"]["cmds"] if c["name"] == name), "?")
         detail = "custom-parser" if kind == "custom" else f"uod-command:{kind}"
     line = f.get("line")
     src = case["pcode"].splitlines()[line] if line is not None and line < len(case["pcode"].splitlines()) else ""
     return [Failure(f"clean-method-fails:{f['category']}:{detail}", pub_case,
-                    f"the analyzer reports no error for the method, the engine fails with {f['category']} "
-                    f"({f['text'][:200]}) at line {line} {src!r}")]
+                    f"the analyzer reports no error for the method, the engine fails ({f['category']}, {detail}; "
+                    f"{f.get('exc')} raised in {f.get('raised_in')}, node {f.get('node')}): {f['text'][:200]} "
+                    f"— line {line} {src!r}")]
+
+
+BASE_PROBES = ["s", " s", "s ", "\ts\n", "L", " L", "L\n", "min", "mins", "sec", "1 min", "each", "Lh", "", " ", "s|min",
+               "h\x0b", "mL", "CV", "\u00a0min", "(s)", "S"]
 
 
 def gen_cases(ctx: Check) -> list[dict]:
@@ -266,8 +277,8 @@ def run(ctx: Check) -> int:
 
     def impl(c):
         o = obs_of(c)
-        n = len(definition_ops(pub_of(c["spec"])[0])) + len(o["ops"]) - 4
-        return ["ok"] * n + ["ok", "ok", o["analysis"], o["accept"]]
+        n = len(definition_ops(pub_of(c["spec"])[0])) + len(o["ops"]) - 4 - len(o["probe_out"])
+        return ["ok"] * n + o["probe_out"] + ["ok", "ok", o["analysis"], o["accept"]]
 
     pubcases = [{"spec": c["spec"], "pcode": c["pcode"], "kind": c["kind"]} for c in cases]
     by = {id(p): c for p, c in zip(pubcases, cases)}
